@@ -67,7 +67,7 @@ def scenarios(ctx):
             w["first_at_zero"] = True                      # the first site on the first base of its contig
         if rng.random() < 0.2:
             w["phase_vcf"] = True                          # a phased VCF (true haplotypes, blocks) as an additional phase input
-        if ns == 1 and rng.random() < 0.15:
+        if ns == 1 and rng.random() < 0.15 and not any(d_.get("decoy") == "foreignrg" for d_ in w.get("decoys", [])):
             o["ignore_rg"] = True          # --ignore-read-groups: read groups absent or naming somebody else
         scs.append({"world": w})
     return scs
